@@ -216,14 +216,16 @@ void run_datagram(Ctx &c, vh::Rng &r, const c15gen::Dg &dg, const std::string &d
                 if (reps.empty()) vh::counter("memcheck_errors_repeating_an_earlier_report");
             }
         }
-        // outcome without lookup numbers
-        std::string o2;
-        for (size_t i = 0; i < out.size(); ++i) { if (out[i] == 'L' && (i == 0 || out[i - 1] == ';')) { while (i < out.size() && out[i] != ' ') ++i; } if (i < out.size()) o2 += out[i]; }
-        outcome[run] = o2;
+        // outcome without lookup numbers; CNAME names only by length (a pointer into the header makes the lookup's own id,
+        // which differs between the two runs, part of a name; the content of every name is checked by the reference anyway)
+        outcome[run] = out;
         if (run == 0 && dg.tag == "strict" && !out.empty() && out.find("A[0] CNAME[0]") == std::string::npos) ps.strict_with_records = true;
         c.cancel_id(id, "cleanup");
         if (memcheck) return;
     }
+    // a pointer that lands on the id field makes the parse depend on the lookup's id, which differs between the runs
+    for (size_t o = 0; o + 1 < dg.b.size(); ++o)
+        if ((dg.b[o] & 0xc0) == 0xc0 && ((size_t(dg.b[o] & 0x3f) << 8) | dg.b[o + 1]) < 2) { vh::counter("differential_skipped_pointer_to_id"); return; }
     vh::counter("differential_pairs");
     if (outcome[0] != outcome[1])
         vh::viol("parser/uninit/outcome-depends-on-stack-garbage",
